@@ -60,7 +60,7 @@ def load_known(pid: str):
 # worker side
 # ------------------------------------------------------------------------------------------
 def _settings(n, steps=None):
-    from hypothesis import HealthCheck, Phase, settings
+    from hypothesis import HealthCheck, Phase, Verbosity, settings
 
     kw = dict(
         max_examples=n,
@@ -71,6 +71,7 @@ def _settings(n, steps=None):
         suppress_health_check=list(HealthCheck),
         phases=(Phase.explicit, Phase.generate, Phase.target, Phase.shrink),
         print_blob=False,
+        verbosity=Verbosity.quiet,
     )
     if steps is not None:
         kw["stateful_step_count"] = steps
@@ -306,6 +307,8 @@ def main(argv=None):
     tasks = []
     for ci, c in enumerate(clauses):
         total = int((c.quick if args.tier == "quick" else c.thorough) * args.scale)
+        if total <= 0:
+            continue
         nsh = c.shards_quick if args.tier == "quick" else c.shards_thorough
         nsh = max(1, min(nsh, total)) if c.kind != "custom" else max(1, nsh)
         per = max(1, total // nsh)
